@@ -346,6 +346,13 @@ func (f File) Generate(inputWriter io.Writer, settings GenerateSettings) error {
 	imports := []string{}
 	potentialImports := []string{}
 	settings.importTypeAliases = make(map[string]string)
+	// f is a copy of the caller's File but shares its slices' backing arrays:
+	// appending imported definitions must not write into the caller's spare capacity.
+	f.Consts = append([]Const(nil), f.Consts...)
+	f.Structs = append([]Struct(nil), f.Structs...)
+	f.Unions = append([]Union(nil), f.Unions...)
+	f.Messages = append([]Message(nil), f.Messages...)
+	f.Enums = append([]Enum(nil), f.Enums...)
 	switch settings.ImportGenerationMode {
 	case ImportGenerationModeSeparate:
 		for _, imp := range settings.imported {
